@@ -237,7 +237,11 @@ example : Bech32.polymod (hrpExpand [97] ++ [11, 28, 25, 31, 20, 30]) ≠ BECH32
    substitutions and adjacent transpositions are theorems above; four needs the BCH bound over GF(1024) (not in
    Mathlib) or the disjointness of about 3.7·10⁶ pair sums x^b·d1 + x^c·d2 from as many x^e·d3 + d4, out of reach
    of `decide`. Also not proved: THREE substitutions with the constant read off a CHANGED version character
-   (`m` None; one and two are theorems above), and substitutions in the human-readable part or of the separator. -/
+   (`m` None; one and two are theorems above) — and at window 88 that statement is FALSE of the BIPs' code:
+   x^82·1 + x^20·17 + x^13·27 = BECH32_1_CONST xor BECH32_M_CONST, so e.g. an 85-character bech32 string (version 0)
+   with its version character and two others changed is a valid bech32m string and `bech32.decode(s)` accepts it
+   (also x^79, x^69, x^58; no such triple below exponent 79, which covers every segwit address — computed outside
+   Lean, not a theorem). Nor are substitutions in the human-readable part or of the separator covered. -/
 
 -- non-vacuity: a real checksum ("a12uel5l" of BIP173: hrp "a", no data), and what the theorems say about it
 example : Bech32.polymod (hrpExpand [97] ++ [10, 28, 25, 31, 20, 31]) = 1 := by decide
